@@ -336,10 +336,11 @@ static Task* pick(Task* me) {
         if (g_replay && g_replay_pos < g_replay->size() && (*g_replay)[g_replay_pos].step == g_step) {
             next = en[(*g_replay)[g_replay_pos].rank % n];
             g_replay_pos++;
-        } else if (me && enabled(me)) {
+        } else if (me && enabled(me) && !me->spinning) {
             next = me;
         } else {
-            next = pool[0];
+            // off the recorded schedule (shrinking, or a different build): never keep a spinning task running
+            next = nns ? pool[0] : pool[g_rng_sched.below(pn)];
         }
         return next;
     }
@@ -864,6 +865,14 @@ __attribute__((constructor(102))) static void sim_ctor() {
     g_stats_path = getenv("VERIF_SIM_OUT");
     g_decisions_out = getenv("VERIF_SIM_DECISIONS");
     atexit(psim_atexit);
+}
+
+void dump_decisions(const char* path) {
+    if (!path) return;
+    FILE* d = fopen(path, "w");
+    if (!d) return;
+    for (auto& x : g_decisions) fprintf(d, "%llu %u\n", (unsigned long long)x.step, x.rank);
+    fclose(d);
 }
 
 void set_livelock_limit(uint64_t n) {
